@@ -118,7 +118,21 @@ func (ex *Exec) callValue(fr *Frame, st *State, cc *ssa.CallCommon, fv Val, args
 			return ex.builtin(fr, st, strings.TrimPrefix(f.Sym.S, "builtin_"), args, cc, rt, pos)
 		}
 	}
-	// function-typed value not known on this path
+	// function-typed value not known on this path: a contract may be given for its NAMED function type
+	// ("extern funcvalue:context.CancelFunc"): what every value of that type is assumed to do when called
+	if nt, ok := cc.Value.Type().(*types.Named); ok && nt.Obj() != nil && nt.Obj().Pkg() != nil {
+		key := "funcvalue:" + nt.Obj().Pkg().Path() + "." + nt.Obj().Name()
+		if c := ex.activeContract(key); c != nil {
+			names := []string{"callee"}
+			ptypes := []types.Type{cc.Value.Type()}
+			for i := 0; i < sig.Params().Len(); i++ {
+				names = append(names, fmt.Sprintf("p%d", i))
+				ptypes = append(ptypes, sig.Params().At(i).Type())
+			}
+			ex.usedExtern["calls of values of type "+nt.Obj().Pkg().Path()+"."+nt.Obj().Name()+" (assumed contract "+key+")"] = true
+			return ex.applyContractNamed(fr, st, c, names, ptypes, sig, append([]Val{fv}, args...), pos, nil)
+		}
+	}
 	return ex.havocCall(fr, st, "func-value", args, sig, pos)
 }
 
